@@ -451,6 +451,7 @@ func registerFS(e *Engine) {
 		st.trace = append(st.trace, "fsync "+h.path)
 		if h.node.isDir {
 			h.node.entriesDirty = false
+			delete(st.pending, h.path)
 		} else {
 			h.node.dirty = false
 		}
@@ -562,6 +563,10 @@ func registerFS(e *Engine) {
 		st.nodes[parentDir(src)].entriesDirty = true
 		st.nodes[parentDir(dst)].entriesDirty = true
 		st.published = append(st.published, dst)
+		if st.pending == nil {
+			st.pending = map[string][]string{}
+		}
+		st.pending[parentDir(dst)] = append(st.pending[parentDir(dst)], dst)
 		return iface{}
 	})
 	e.reg("os.RemoveAll", func(ex *Exec, fr *frame, args []Value) Value {
